@@ -198,7 +198,7 @@ def build_and_run(h, tier, workroot, keep=False):
         res["instr_log"] = (out + err)[-4000:]
     else:
         shutil.copy(a, b)
-    cb = ["cbmc", b] + CBMC_CHECKS
+    cb = ["cbmc", b] + h.get("cbmc_checks", CBMC_CHECKS)
     uw = h.get("unwind_" + tier, h.get("unwind"))
     if uw:
         cb += ["--unwind", str(uw)]
@@ -304,6 +304,29 @@ def build_and_run(h, tier, workroot, keep=False):
             prev = merged.get(ob["name"])
             if prev is None or (prev["status"] == "SUCCESS" and ob["status"] != "SUCCESS"):
                 merged[ob["name"]] = ob
+    # Second pass: CBMC reports every obligation behind a FAILED fatal check (an out-of-bounds dereference, say) as UNKNOWN.
+    # The failed check itself is reported under its own property (C01); so that the other properties of the harness are
+    # still DECIDED on such a tree, the UNKNOWN obligations are re-run with the fatal checks switched off (an access outside
+    # its object then yields an arbitrary value, which is what the hardware does).  Their verdicts are marked second_pass.
+    unknown = [n for n, ob in merged.items() if ob["status"] == "UNKNOWN"]
+    if unknown and not h.get("no_second_pass") and any(ob["status"] == "FAILURE" and ob.get("kind") in ("safety", "frame") for ob in merged.values()) \
+            and not os.environ.get("VERIF_NO_SECOND_PASS"):
+        cb2 = [x for x in cb if x not in CBMC_CHECKS] + ["--no-standard-checks"]
+        cmd2 = list(cb2)
+        for n in unknown:
+            if merged[n].get("kind") != "safety":        # the built-in checks do not exist in this pass
+                cmd2 += ["--property", n]
+        with CBMC_SLOT(h):
+            rc2, out2, err2, w2 = sh(cmd2, cwd=wd, timeout=tmo, mem_gb=h.get("mem_gb", 24))
+        res["cmds"].append(" ".join(cb2) + "   [second pass: %d obligation(s) UNKNOWN behind a failed fatal check]" % len(unknown))
+        res["wall"] += w2
+        scratch = {"warnings": [], "undecided": None}
+        part2 = parse_text_results(out2, err2, rc2, wd, h, scratch) if rc2 != -9 else None
+        for ob in (part2 or []):
+            if ob["name"] in unknown and ob["status"] in ("SUCCESS", "FAILURE"):
+                ob["second_pass"] = True
+                merged[ob["name"]] = ob
+        res["trace_cmd2"] = cb2
     res["obligations"] = list(merged.values())
     res["trace_cmd"] = cb
     res["wd"] = wd
@@ -354,7 +377,8 @@ def parse_text_results(out, err, rc, wd, h, res):
 
 def fetch_trace(r, propname):
     """second, targeted run: counterexample trace of one failed obligation (whole-run traces reach gigabytes)"""
-    cb = list(r["trace_cmd"]) + ["--json-ui", "--property", propname]
+    second = any(o["name"] == propname and o.get("second_pass") for o in r.get("obligations", []))
+    cb = list(r["trace_cmd2"] if second and r.get("trace_cmd2") else r["trace_cmd"]) + ["--json-ui", "--property", propname]
     rc, out, err, w = sh(cb, cwd=r["wd"], timeout=r["timeout"], mem_gb=24)
     try:
         for e in json.loads(out):
@@ -539,6 +563,12 @@ def report(pid, tier, seed, pdef, hs, results, extra_results, known, floors, wor
             elif o["status"] != "FAILURE":
                 undecided.append("%s: vacuity guard: canary '%s' not reachable (status %s) - harness is vacuous"
                                  % (hn, need, o["status"]))
+        # a silently dropped loop contract shows only as a timeout or as an unwinding failure: require its obligations
+        for lc in h.get("loop_contracts", []):
+            fn_, idx_ = lc.rsplit(".", 1)
+            if not any(o["name"].startswith(fn_ + ".loop_invariant_step") and o["status"] == "SUCCESS" for o in obs) and \
+               not any(o["name"].startswith(fn_ + ".loop_invariant") and o["status"] == "FAILURE" for o in obs):
+                undecided.append("%s: vacuity guard: no loop-invariant obligations for loop %s - the loop contract was not applied" % (hn, lc))
         for o in obs:
             if o["kind"] in ("canary", "foreign"):
                 continue
@@ -547,7 +577,8 @@ def report(pid, tier, seed, pdef, hs, results, extra_results, known, floors, wor
                     undecided.append("%s: %s obligation %s [%s] is %s (model/unwinding limit, not a verdict)"
                                      % (hn, o["kind"], o["name"], o["desc"][:80], o["status"]))
                 continue
-            if pid in o["props"]:
+            adopt = pdef.get("adopt", {})
+            if pid in o["props"] or (hn in adopt.get("harnesses", []) and o["kind"] in ("spec", "contract") and set(o["props"]) & set(adopt.get("props", []))):
                 mine.append(o)
             elif o["status"] != "SUCCESS":
                 notes.append("%s: obligation %s (%s) is %s; it belongs to %s and is reported by that check"
